@@ -237,6 +237,32 @@ static bool tree_is_sane(char* why, size_t why_size) {
   return true;
 }
 
+// Observation of fill events (kFillUnusedMemory): snapshot of the block's bytes (rx view) before release/shrink; afterwards
+// the range of bytes that changed, as offset/length inside the block (0 0 if nothing changed).
+static std::vector<uint8_t> g_snap;
+static int64_t g_snap_serial = -1;
+static void fill_snapshot(int64_t serial) {
+  g_snap_serial = -1;
+  if (!(H.opt & 4u)) return;
+  const BlockEnt* be = block_by_serial(serial);
+  if (!be) return;
+  g_snap.resize(be->info.bytes);
+  memcpy(g_snap.data(), reinterpret_cast<const void*>(be->info.rx_base), be->info.bytes);
+  g_snap_serial = serial;
+}
+static int fill_observed(char* out, size_t n) {
+  out[0] = 0;
+  if (g_snap_serial < 0) return 0;
+  const BlockEnt* be = block_by_serial(g_snap_serial);
+  g_snap_serial = -1;
+  if (!be || be->info.bytes != g_snap.size()) return 0;
+  const uint8_t* cur = reinterpret_cast<const uint8_t*>(be->info.rx_base);
+  size_t lo = 0, hi = g_snap.size();
+  while (lo < hi && cur[lo] == g_snap[lo]) lo++;
+  while (hi > lo && cur[hi - 1] == g_snap[hi - 1]) hi--;
+  return snprintf(out, n, " f %" PRIu64 " %" PRIu64, uint64_t(lo < hi ? lo : 0), uint64_t(hi - lo));
+}
+
 static int digest(const JitAllocatorBlock* b, char* out, size_t n, char sep) {
   unsigned f = (b->has_flag(JitAllocatorBlock::kFlagEmpty) ? 1u : 0u) + (b->has_flag(JitAllocatorBlock::kFlagDirty) ? 2u : 0u) + (b->has_flag(JitAllocatorBlock::kFlagIncremental) ? 4u : 0u);
   return snprintf(out, n, "%u%c%u%c%u%c%u%c%u", b->_search_start, sep, b->_search_end, sep, b->_largest_unused_area, sep, f, sep, b->_area_used);
@@ -360,6 +386,40 @@ int main() {
     const char* p = line + 1;
     if (*p != ' ' && *p != '\n' && *p != '\r' && *p != 0) { puts("BAD"); continue; }
 
+    // ---- I b hint start end n w1..wn : BitVectorRangeIterator<uint64_t, b> over the given words, all ranges ---------------
+    // ---- K op a b n w1..wn           : bit_vector_fill (f) / bit_vector_clear (c) / bit_vector_index_of (i: a=start b=value)
+    //      (word level tied to C18's models inside this harness as well; independent of any allocator history)
+    if (c == 'I' || c == 'K') {
+      uint64_t a0 = 0, a1 = 0, a2 = 0, a3 = 0, n = 0; char op = 0;
+      bool ok = true;
+      if (c == 'K') { while (*p == ' ') p++; op = *p; if (op) p++; ok = (op == 'f' || op == 'c' || op == 'i'); }
+      ok = ok && next_u64(p, a0) && next_u64(p, a1);
+      if (c == 'I') ok = ok && next_u64(p, a2) && next_u64(p, a3);
+      ok = ok && next_u64(p, n) && n >= 1 && n <= 16;
+      uint64_t w[17] = {0};
+      for (uint64_t i = 0; ok && i < n; i++) ok = next_u64(p, w[i]);
+      if (!ok || !at_end(p)) { puts("BAD"); continue; }
+      if (c == 'I') {
+        size_t rs = 0, re = 0; int count = 0;
+        printf("I");
+        if (a0) { BitVectorRangeIterator<uint64_t, 1> it(w, size_t(n), size_t(a2), size_t(a3));
+                  while (count < 1100 && it.next_range(Out(rs), Out(re), size_t(a1))) { printf(" %" PRIu64 " %" PRIu64, uint64_t(rs), uint64_t(re)); count++; } }
+        else    { BitVectorRangeIterator<uint64_t, 0> it(w, size_t(n), size_t(a2), size_t(a3));
+                  while (count < 1100 && it.next_range(Out(rs), Out(re), size_t(a1))) { printf(" %" PRIu64 " %" PRIu64, uint64_t(rs), uint64_t(re)); count++; } }
+        putchar('\n');
+      }
+      else if (op == 'i') {
+        printf("K %" PRIu64 "\n", uint64_t(Support::bit_vector_index_of(w, size_t(a0), a1 != 0)));
+      }
+      else {
+        if (op == 'f') Support::bit_vector_fill(w, size_t(a0), size_t(a1)); else Support::bit_vector_clear(w, size_t(a0), size_t(a1));
+        printf("K");
+        for (uint64_t i = 0; i < n; i++) printf(" %" PRIu64, w[i]);
+        putchar('\n');
+      }
+      continue;
+    }
+
     // ---- H ----------------------------------------------------------------------------------------------------------
     if (c == 'H') {
       uint64_t g, bs, opt;
@@ -461,13 +521,14 @@ int main() {
         if (hi >= H.handles.size() || !H.handles[hi].ever_ok || !handle_live(H.handles[hi])) { puts("R skip"); break; }
         Handle& h = H.handles[hi];
         M.pre_release(uint32_t(hi));
+        fill_snapshot(h.blk);
         Error err = Error::kOk;
         if (int sg = guarded([&] { err = a.release(h.span.rx()); })) { h.live = false; crashed('R', sg, "release"); break; }
         bool changed = refresh_blocks();
         if (err == Error::kOk) { h.live = false; M.on_release(uint32_t(hi), changed ? &H.table : nullptr); }
         else if (changed) M.set_blocks(H.table);
         const BlockEnt* be = block_by_serial(h.blk);
-        if (be) { digest(be->ptr, dg, sizeof(dg), ' '); printf("R %s %" PRId64 " %s\n", err_name(err, tmp), h.blk, dg); }
+        if (be) { char fo[64]; fill_observed(fo, sizeof(fo)); digest(be->ptr, dg, sizeof(dg), ' '); printf("R %s %" PRId64 " %s%s\n", err_name(err, tmp), h.blk, dg, fo); }
         else printf("R %s %" PRId64 " deleted\n", err_name(err, tmp), h.blk);
         M.tick();
         do_stats(false);
@@ -482,6 +543,7 @@ int main() {
         if (hi >= H.handles.size() || !H.handles[hi].ever_ok || !handle_live(H.handles[hi])) { puts("S skip"); break; }
         Handle& h = H.handles[hi];
         if (n == 0) M.pre_release(uint32_t(hi)); else M.pre_shrink(uint32_t(hi));
+        fill_snapshot(h.blk);
         Error err = Error::kOk;
         if (int sg = guarded([&] { err = a.shrink(h.span, size_t(n)); })) { h.live = false; crashed('S', sg, "shrink"); break; }
         bool changed = refresh_blocks();
@@ -496,7 +558,7 @@ int main() {
           if (err == Error::kOk && h.requested > size_t(n)) h.requested = size_t(n);
         }
         const BlockEnt* be = block_by_serial(h.blk);
-        if (be) { digest(be->ptr, dg, sizeof(dg), ' '); printf("S %s %" PRIu64 " %" PRId64 " %s\n", err_name(err, tmp), uint64_t(len_after), h.blk, dg); }
+        if (be) { char fo[64]; fill_observed(fo, sizeof(fo)); digest(be->ptr, dg, sizeof(dg), ' '); printf("S %s %" PRIu64 " %" PRId64 " %s%s\n", err_name(err, tmp), uint64_t(len_after), h.blk, dg, fo); }
         else printf("S %s %" PRIu64 " %" PRId64 " deleted\n", err_name(err, tmp), uint64_t(len_after), h.blk);
         if (n != 0 && err == Error::kOk && !M.poisoned) self_query(uint32_t(hi));
         M.tick();
